@@ -228,6 +228,10 @@ class ActGen:
                     steps = r.choice([1, 5, 3, 7])
                     c = [x - (x % 1) for x in c]
                 form = r.choice(["kw", "kw-swapped", "pos", "pos-dur-only"])
+                if ok and r.random() < 0.1 and form != "pos-dur-only":
+                    # more steps than a channel has levels: still exactly `steps` updates (prime counts: no interpolated value is a .5 tie)
+                    dur, steps = r.choice([300, 520]), r.choice([257, 263, 307])
+                    self.features.add("rgb.fade:more-than-255-steps")
                 if form == "pos-dur-only" and "rgb-fade-tie" not in self.hazards and ok:
                     # default steps=50: keep every channel delta even so that no interpolated value is an exact .5 tie
                     # (device rounds half away from zero, host round() half to even - known finding KF-rgb-fade-tie-rounding)
